@@ -27,7 +27,17 @@ func main() {
 	cpu := flag.Int("cpulimit", 0, "RLIMIT_CPU seconds (soft); hard = soft+5")
 	race := flag.Bool("race", false, "this binary was built with -race")
 	workdir := flag.String("workdir", "", "scratch directory")
+	aux := flag.String("aux", "", "auxiliary child entry point")
 	flag.Parse()
+
+	if *aux != "" {
+		f := mon.Aux[*aux]
+		if f == nil {
+			fmt.Fprintf(os.Stderr, "unknown aux %q\n", *aux)
+			os.Exit(2)
+		}
+		os.Exit(f(flag.Args()))
+	}
 
 	m := mon.All[*prop]
 	if m == nil {
